@@ -10,7 +10,7 @@ import os
 
 import numpy as np
 
-from .. import cover, gen
+from .. import core, cover, gen
 
 LEVEL = 'exploration'
 JOBS = {'quick': 4, 'thorough': 16}
@@ -183,10 +183,12 @@ def drive(ctx, start, end, edges_s, edges_e, cyc_s, cyc_e, restr, rcls, types, i
         ctx.violation(f'caller-molecule-modified:{which}', f'the {which} Molecule supplied by the caller was modified', witness=w)
     # repeat: same inputs, same seed -> identical bits
     try:
-        before2, after2 = run_alignment(start, end, restr, types, ignore_h, factor, seed)
+        with core.other_stdout():           # the repeat prints to the other kind of stdout (terminal-like <-> captured)
+            before2, after2 = run_alignment(start, end, restr, types, ignore_h, factor, seed)
     except Exception as exc:  # noqa
         ctx.violation(f'alignment-raises-on-repeat:{type(exc).__name__}', str(exc)[:200], witness=w)
         return
+    ctx.hit('repeat:other-kind-of-stdout')
     ctx.monitor('repeat_bit_identical')
     if not (np.array_equal(after['start'], after2['start']) and np.array_equal(after['end'], after2['end'])):
         ctx.violation('not-deterministic', 'two runs from the same inputs and seed differ', witness=w)
